@@ -124,7 +124,7 @@ func TestGovcReplay(t *testing.T) {
 	}
 	// 2. all presence patterns, sizes around the varint boundaries, through the real encoder
 	rnd := rand.New(rand.NewSource(1))
-	sizes := []int{1, 2, 3, 126, 127, 128, 129, 300, 16383, 16384, 16385}
+	sizes := []int{2, 3, 4, 126, 127, 128, 129, 300, 16383, 16384, 16385} // at least the 2-byte sample-count header of a chunk
 	for mask := 0; mask < 32; mask++ {
 		for rep := 0; rep < 3; rep++ {
 			var chks [5]chunkenc.Chunk
@@ -135,6 +135,9 @@ func TestGovcReplay(t *testing.T) {
 				}
 				d := make([]byte, sizes[rnd.Intn(len(sizes))])
 				rnd.Read(d)
+				if rnd.Intn(6) == 0 {
+					d = append([]byte(nil), chunkenc.NewXORChunk().Bytes()...) // a present chunk nobody appended to
+				}
 				ch, err := chunkenc.FromData(chunkenc.EncXOR, d)
 				if err != nil {
 					t.Fatal(err)
